@@ -357,6 +357,18 @@ def check_case(env, rec, label, sidecar, spec, alpha, thorough):
                         rec.violation(f"C06:dataframe-input-assembles-differently:{how}", sidecar=js,
                                       row=rows[bad[0][0]] if bad else None, from_file=bad[0][1] if bad else None,
                                       from_frame=bad[0][2] if bad else None)
+                # the same file with a trailing tab after every data row (not after the header): same rows, same annotations
+                head_, _, body_ = tsv.partition("\n")
+                ragged = head_ + "\n" + "".join(line + "\t\n" for line in body_.splitlines())
+                try:
+                    got_r = list(TabularInput(io.StringIO(ragged), sidecar=Sidecar(io.StringIO(js))).series_a)
+                    rec.n("transitions")
+                    if got_r != list(ser):
+                        rec.violation("C06:trailing-tab-file-assembles-differently", sidecar=js, table=ragged[:200],
+                                      expected=list(ser)[:3], got=got_r[:3])
+                except Exception as e:
+                    rec.violation(f"C06:trailing-tab-file-raises:{type(e).__name__}", sidecar=js, table=ragged[:200],
+                                  error=repr(e)[:200])
             if frame_snapshot(ti.dataframe) != frame_before:
                 rec.violation("C06:table-changed-by-assembly", sidecar=js, table=tsv[:200])
             if sc.loaded_dict != side_before:
